@@ -19,6 +19,57 @@ CHECKS = {
              "oracle; one or two reactions per model; the oracle is 30 lines written from the documentation."),
 }
 
+
+CHECKS.update({
+    "C05": dict(level="model_checking", design="3/C05",
+        text="One iteration of the real while-body of SSASimulator.simulate is executed symbolically from an arbitrary pre-state "
+             "(inductive step; plus initialisation and exit) against a reference direct-method step relation: waiting time "
+             "-ln(u)/Lambda capped at the next grid time, reaction j chosen iff its cumulative bracket contains u*Lambda, rows "
+             "record the pre-update state; exponential_rv / sample_discrete / array_sum are executed from random.pyx.",
+        note="Gillespie's theorem and inverse-CDF sampling are trusted mathematics; uniforms are arbitrary values in (0,1); "
+             "abstract interface with arbitrary non-negative propensities; sizes S,R <= 3, T <= 4; MT19937-64 not analysed."),
+    "C06": dict(level="model_checking", design="3/C06",
+        text="Inductive step of all four event loops (state changes only by stoichiometry columns of reactions with positive "
+             "propensity or by queued deliveries; zero total propensity fires nothing; clock monotone), mass-action "
+             "non-negativity through the real Model/interface code, and safe mode with an arbitrary rate law and symbolic "
+             "stoichiometry.",
+        note="Integrality/conservation follow by induction from the step relation; delayed reactants at delivery time are outside "
+             "the claim; sizes S,R <= 3, T <= 4, queue slots 2..3, stoichiometry in [-3,3]."),
+    "C09": dict(level="model_checking", design="3/C09",
+        text="Rule kernels, rule registration for Model and LineageModel (also after re-initialisation), declaration-order "
+             "application through the interface, and one inductive step of the plain/delay/volume loops with rules as an "
+             "arbitrary state map: rules run before propensities, rows are rule-updated states, the dt step flag is raised once "
+             "per reported row, the clock equals a grid time only after that row is final; deterministic rhs_global and the "
+             "re-application of rules to integrator rows.",
+        note="odeint stubbed; aligned reporting grid and volume clock for the volume simulator's dt clause; delay+volume mode not "
+             "covered for the dt clause; lineage single-cell loop covered under C19's harness."),
+    "C10": dict(level="model_checking", design="3/C10",
+        text="Inductive step of the delay and delay+volume loops with the real ArrayDelayQueue inside and a ghost conservation "
+             "invariant (state + queued deliveries accounts for every firing, exactly once); delay classes, Box-Muller and "
+             "Marsaglia-Tsang samplers executed from source against their textbook formulas.",
+        note="Box-Muller / Marsaglia-Tsang theorems trusted; gamma rejection loop checked for its first two iterations; nearest-slot "
+             "filing is C20's result."),
+    "C11": dict(level="model_checking", design="3/C11",
+        text="Inductive step of VolumeSSASimulator.volume_simulate with an abstract and with the real exponential volume model: "
+             "volume-scaled propensities evaluated at the current volume, a volume step only when the volume clock is reached "
+             "(growth within one step of the law), rows carry the current volume, truncation and divided flag at division; "
+             "kernels of the volume models (exp growth, division window).",
+        note="exp/ln uninterpreted with lemmas; distribution of division time outside the claim; master-equation equivalence for "
+             "constant volume rests on C05's step relation + Gillespie's theorem."),
+    "C16": dict(level="model_checking", design="3/C16",
+        text="check_prior and the seven prior methods are executed symbolically; z3 proves equality with the textbook log-density "
+             "inside the support for all parameter values and hyper-parameters, rejection (non-finite) outside it and under the "
+             "'positive' flag, additivity over parameter vectors, and the -inf wrapper of get_likelihood_function.",
+        note="exp/log/sqrt/pow/Gamma/Beta uninterpreted with lemmas; gamma/beta outside-support behaviour checked on integer "
+             "shapes; boundary points of supports excluded."),
+    "C20": dict(level="model_checking", design="3/C20",
+        text="Each ArrayDelayQueue operation is executed from an arbitrary symbolic queue state (every ring position, 2..4 slots, "
+             "1..2 reactions) and shown to preserve a ghost labelling of columns by delivery time: nearest-slot filing with "
+             "clamping, read/advance clears exactly the due column, copy/clear_copy/binomial_partition conserve and do not "
+             "alias; exactly-once in-order delivery follows by induction over any interleaving.",
+        note="Requested times never exactly half-way; dt > 0; partition counts bounded (<= 3 in <= 3 cells)."),
+})
+
 NOT_YET = "check not built yet in this revision of /verif (work in progress; see DESIGN.md section 3 for the planned obligations)"
 
 
